@@ -5,6 +5,7 @@ CONSTANT ChunkSizes = {0}
 CONSTANT MaxRows = 1
 CONSTANT SampleMod = 1
 CONSTANT SamplePick = 0
+CONSTANT PreModes = {"none", "all"}
 SPECIFICATION TraceSpec
 INVARIANT TraceConsumed
 CHECK_DEADLOCK FALSE
